@@ -715,16 +715,20 @@ fn get_where_filters(params: &EntityParams, prepared_query: &mut SingleQuery, t:
                                 }
                                 ParamValue::String(v) => {
                                     tab(&mut q, t + 1);
+                                    //the default value is a user defined text: it must be bound, not spliced in the query
+                                    let default = prepared_query.add_param(String::from(v), true);
                                     q.push_str(&format!(
-                                        "WHEN '{}' {} {} THEN ",
-                                        v, operation, &value
+                                        "WHEN {} {} {} THEN ",
+                                        default, operation, &value
                                     ));
                                 }
                                 ParamValue::Binary(v) => {
                                     tab(&mut q, t + 1);
+                                    //the default value is a user defined text: it must be bound, not spliced in the query
+                                    let default = prepared_query.add_param(String::from(v), true);
                                     q.push_str(&format!(
-                                        "WHEN '{}' {} {} THEN ",
-                                        v, operation, &value
+                                        "WHEN {} {} {} THEN ",
+                                        default, operation, &value
                                     ));
                                 }
                                 _ => unreachable!(),
